@@ -137,3 +137,32 @@ package receiver
 // without -p an existing regular destination file keeps its own permission bits
 //@ func (*receiver.Transfer).recvGenerator
 //@   ensures[C11] [no-perms-keeps-perms] err == nil && old(rt.Dest) != "" && !old(rt.Opts.DryRun) && !old(rt.Opts.PreservePerms) && 0 <= old(f.Mode) && mod(div(old(f.Mode), 4096), 16) == 8 && old(entryExists(rt.DestRoot, f.Name)) && old(modeIsRegular(infoMode(destInfo(rt, f)))) ==> select(ghost.perm, old(fkey(rt, f))) == old(select(ghost.perm, fkey(rt, f)))
+
+// ---------------------------------------------------------------- C09: delete pass
+// Per visited entry: listed entries are kept, extraneous ones are removed
+// (RemoveAll through the destination root) unless this is a dry run; walk
+// errors are passed on untouched; SkipDir is only ever answered for a
+// directory (for a file it would make fs.WalkDir skip the file's siblings).
+//@ func (*receiver.Transfer).deleteFiles$1
+//@   results ret
+//@   requires [sorted] sortedByName(fileList)
+//@   modifies ghost.removed, rsyncos.Env.logger
+//@   ensures[C09] [walk-error-passed-on] err != nil ==> ret == err && ghost.removed == old(ghost.removed)
+//@   ensures[C09] [listed-kept] err == nil && inList(fileList, path) ==> ret == nil && ghost.removed == old(ghost.removed)
+//@   ensures[C09] [dry-run-keeps] rt.Opts.DryRun ==> ghost.removed == old(ghost.removed)
+//@   ensures[C09] [extraneous-removed] err == nil && !inList(fileList, path) && !rt.Opts.DryRun ==> ghost.removed == store(old(ghost.removed), pathKey(rt.DestRoot, path), true)
+//@   ensures[C09] [skipdir-only-for-directories] isSkipDir(ret) && err == nil ==> modeIsDir(infoMode(entryInfo(data(info))))
+
+//@ func (*receiver.Transfer).deleteFiles
+//@   requires [sorted] sortedByName(fileList)
+//@   modifies ghost.removed, rsyncos.Env.logger
+//@   ensures[C09] [io-errors-delete-nothing] rt.IOErrors > 0 ==> ghost.removed == old(ghost.removed)
+
+//@ func (*receiver.Transfer).ReceiveFileList
+//@   modifies *
+//@   ensures[C09] [sorted] err == nil ==> sortedByName(result)
+
+//@ func (*receiver.Transfer).Do
+//@   requires [sorted] sortedByName(fileList)
+//@   modifies *, ghost.removed, ghost.renames, ghost.acc, ghost.cleaned, ghost.created, ghost.lastPending, ghost.objClock, ghost.int32sWritten, ghost.mtimeSec, ghost.perm, ghost.uid, ghost.gid
+//@   ensures[C09] [no-delete-without-option] !old(rt.Opts.DeleteMode) ==> ghost.removed == old(ghost.removed)
